@@ -414,6 +414,15 @@ def overlay_rec(rng, spec, tries=40, accept=None):
             # a path node that fails for one half of its argument space: typically in a later iteration only
             victim = nodes[rng.choice(sorted(P))]
             victim['plan'] = [rng.choice(['E1?', 'E2?', 'E3?'])]
+        if rng.random() < 0.3:
+            # the consumer of the destination also reads an inner node of the path
+            inner = [x for x in sorted(P) if x != dest and x not in _used(nodes[c]['params'])]
+            if inner:
+                nodes[c]['params'].append([f'a{len(nodes[c]["params"]) + 7}', ['In', rng.choice(inner)]])
+                if rng.random() < 0.6:
+                    # ... and the start node fails in a later iteration: the inner node is then never executed again
+                    nodes[start]['plan'] = [rng.choice(['E1?', 'E2?', 'E3?'])]
+                    nodes[start].pop('retry', None)
         if rng.random() < 0.5:
             r = nodes[dest].setdefault('retry', {'attempts': None, 'delay': None, 'exceptions': None})
             r['use_default'] = True
